@@ -4,10 +4,34 @@
 package balloon
 
 import (
+	"bytes"
 	"fmt"
 
 	"github.com/bbva/qed/balloon/hyper"
+	"github.com/bbva/qed/storage"
 )
+
+// verifMapCache is a plain map cache used to rebuild the top levels of the hyper
+// tree from the store without allocating another full BatchCache.
+type verifMapCache struct {
+	m map[string][]byte
+}
+
+func (c *verifMapCache) Get(key []byte) ([]byte, bool) {
+	v, ok := c.m[string(key)]
+	return v, ok
+}
+
+func (c *verifMapCache) Put(key []byte, value []byte) {
+	c.m[string(key)] = append([]byte{}, value...)
+}
+
+func (c *verifMapCache) Fill(r storage.KVPairReader) error {
+	defer r.Close()
+	return nil
+}
+
+func (c *verifMapCache) Size() int { return len(c.m) }
 
 // VerifHyperCacheEqual evaluates, under the balloon lock, the structural
 // invariant "the in-memory top levels of the hyper tree equal what a fresh
@@ -18,11 +42,21 @@ func (b *Balloon) VerifHyperCacheEqual() (bool, error) {
 	if b.hyperTree == nil {
 		return false, fmt.Errorf("balloon is closed")
 	}
-	live, ok := b.hyperTree.VerifCache().(*hyper.BatchCache)
-	if !ok {
-		return false, fmt.Errorf("hyper cache is not a BatchCache")
-	}
-	fresh := hyper.NewBatchCache(hyper.DefaultBatchLevels)
+	live := b.hyperTree.VerifCache()
+	fresh := &verifMapCache{m: make(map[string][]byte)}
 	_ = hyper.NewHyperTreeWithLogger(b.hasherF, b.store, fresh, b.log.Named("verif"))
-	return live.Equal(fresh), nil
+	if live.Size() != fresh.Size() {
+		return false, fmt.Errorf("live cache holds %d batches, rebuild from store %d", live.Size(), fresh.Size())
+	}
+	for k, want := range fresh.m {
+		got, ok := live.Get([]byte(k))
+		if !ok {
+			return false, fmt.Errorf("batch %x missing from the live cache", k)
+		}
+		// the live cache returns fixed-size zero-padded buckets
+		if len(got) < len(want) || !bytes.Equal(got[:len(want)], want) || len(bytes.Trim(got[len(want):], "\x00")) != 0 {
+			return false, fmt.Errorf("batch %x differs between live cache and rebuild", k)
+		}
+	}
+	return true, nil
 }
